@@ -137,6 +137,16 @@ def complementary(h):
         for i in range(3):
             for k in range(3):
                 h.check(f'{tag}: W[{i},{k}] defined', h.eq(f.W[i, k], f.W[i, k]))
+    # magnetometer-only dropout: refused, or that sample's heading correction is skipped (pure gyroscope propagation of the yaw)
+    a_ok = np.array([_nz(h, 'a0'), _nz(h, 'a1'), _nz(h, 'a2')])
+    m_drop = np.array([_nz(h, 'm0'), Z.copy(), _nz(h, 'm2')], dtype=object if h.sym else float)
+    raised, f = h.raises(lambda: flt.Complementary(g.copy(), a_ok.copy(), m_drop.copy()), (ValueError,))
+    if raised:
+        h.check('mag only: refused with ValueError', h.true())
+    else:
+        W = np.array(f.W)
+        h.check('mag only: accepted, so the dropped sample does not pull the heading (yaw propagated by the gyroscope alone)',
+                h.eq(W[1, 2], W[0, 2] + g[1, 2] * f.Dt))
 
 
 @harness('C13/FKF', functions=[FF + 'fkf:FKF._compute_all', FF + 'fkf:FKF.measurement_quaternion_acc_mag'], max_paths=16,
